@@ -181,7 +181,7 @@ func runC04(c *core.Ctx, crashes bool) {
 			e.MintNFT(n, u, cls[ch.Int(len(cls))], ids[ch.Int(len(ids))], w.Users[ch.Int(len(w.Users))])
 		}
 	}
-	steps := 60 + ch.Int(90)
+	steps := (60 + ch.Int(90)) * c.Scale
 	for i := 0; i < steps; i++ {
 		c.Step("c04")
 		n := w.Nodes[ch.Int(len(w.Nodes))]
